@@ -70,7 +70,8 @@ Dispose == /\ disposed' = TRUE
 \* Likewise a failed pipeline may finish the subscribe / dispatch in progress in that instant, no more.
 UserCb(raises, obs) ==
     /\ ~(disposed /\ live = {} /\ (gone = {} \/ settled))                   \* C03
-    /\ obs \/ ~fsettled                                                     \* C09
+    /\ obs \/ ~fsettled \/ live # {}                                        \* C09 (a window/group handed out earlier
+                                                                            \*      is a live subscription of its own)
     /\ faulted' = (faulted \/ (raises /\ strict))
     /\ UNCHANGED <<now, open, ever, stopped, disposed, live, gone, settled, fsettled, strict>>
 
